@@ -132,16 +132,26 @@ def components(check: Check) -> None:
         raises = [n for n in ast.walk(ifn.node) if isinstance(n, ast.Raise)]
         check.require(bool(raises), "T4", f"{comp}/unknown-key", "an unknown key is rejected", loc(ifn))
     # sub-component lists
+    def prints_all(efn, prm: str, coll: str, meth: str) -> int:
+        """Line of the comprehension `self.<meth>(x) for x in <prm>.<coll>` (0 when absent)."""
+        for x in ast.walk(efn.node):
+            if isinstance(x, (ast.ListComp, ast.GeneratorExp)) and len(x.generators) == 1 and not x.generators[0].ifs:
+                g = x.generators[0]
+                if unparse(g.iter) == f"{prm}.{coll}" and isinstance(g.target, ast.Name):
+                    for c in ast.walk(x.elt):
+                        if isinstance(c, ast.Call) and isinstance(c.func, ast.Attribute) and c.func.attr == meth and unparse(c.func.value) == "self" and \
+                                len(c.args) == 1 and isinstance(c.args[0], ast.Name) and c.args[0].id == g.target.id:
+                            return x.lineno * 1000 + x.col_offset
+        return 0
+
     for efn, meth, coll, comp in ((var_fn, "term", "terms", "Variable"), (ov_fn, "term", "terms", "OutputVariable"),
                                   (rb_fn, "rule", "rules", "RuleBlock")):
-        src = unparse(efn.node)
         prm = efn.params[1].name
-        ok = f"self.{meth}({meth}) for {meth} in {prm}.{coll}" in src.replace("(self.indent + ", "").replace("self.indent + ", "")
-        check.require(ok, "T4", f"{comp}/{coll}", f"every element of {coll} is printed with the {meth} printer, in order", loc(efn))
-    src = unparse(eng_fn.node)
-    order = [src.find("self.input_variable(iv) for iv in engine.input_variables"), src.find("self.output_variable(ov) for ov in engine.output_variables"),
-             src.find("self.rule_block(rb) for rb in engine.rule_blocks")]
-    check.require(all(o >= 0 for o in order) and order == sorted(order), "T4", "Engine/components",
+        check.require(bool(prints_all(efn, prm, coll, meth)), "T4", f"{comp}/{coll}", f"every element of {coll} is printed with the {meth} printer, in order", loc(efn))
+    eprm = eng_fn.params[1].name
+    order = [prints_all(eng_fn, eprm, "input_variables", "input_variable"), prints_all(eng_fn, eprm, "output_variables", "output_variable"),
+             prints_all(eng_fn, eprm, "rule_blocks", "rule_block")]
+    check.require(all(o > 0 for o in order) and order == sorted(order), "T4", "Engine/components",
                   "an engine prints all input variables, output variables and rule blocks, in this order", loc(eng_fn))
     # importer dispatch on component headers
     ifn = p.func("FllImporter.engine")
@@ -163,9 +173,26 @@ def components(check: Check) -> None:
     check.require(ok, "T4", "Term/line", "a term line is `term: <name> <ClassName> <parameters()>`", loc(tfn))
     itf = p.func("FllImporter.term")
     check.analysed(itf)
-    src = unparse(itf.node)
-    ok = "construct(values[1], name=Op.as_identifier(values[0]))" in src and "term.configure(values[2])" in src and "update_reference(engine)" in src
-    check.require(ok, "T4", "Term/read", "the importer constructs values[1] named values[0], configures it with values[2] and re-points it to the engine", loc(itf))
+    ri = Resolver(p, itf)
+    values_t = None
+    facts = {"construct": False, "configure": False, "update": False}
+    for n, c in ri.cfg.all_calls():
+        t = ri.term(c, n)
+        if t[0] == "call" and t[1][0] == "attr" and t[1][2] == "construct" and len(t[2]) == 1:
+            kw = dict(t[3])
+            cls_arg, name_arg = t[2][0], kw.get("name", ("const", None))
+            ok1 = cls_arg[0] == "sub" and cls_arg[2] == ("const", 1)
+            ok2 = any(s_[0] == "sub" and s_[2] == ("const", 0) and s_[1] == cls_arg[1] for s_ in walk(name_arg))
+            facts["construct"] = ok1 and ok2
+            values_t = cls_arg[1]
+        if t[0] == "call" and t[1][0] == "attr" and t[1][2] == "configure" and len(t[2]) == 1:
+            facts["configure"] = t[2][0][0] == "sub" and t[2][0][2] == ("const", 2)
+        if t[0] == "call" and t[1][0] == "attr" and t[1][2] == "update_reference":
+            facts["update"] = t[2] == (("param", itf.params[2].name),) if len(itf.params) > 2 else False
+    split_ok = values_t is not None and any(s_[0] == "call" and s_[1][0] == "attr" and s_[1][2] == "split" and dict(s_[3]).get("maxsplit") == ("const", 2) for s_ in walk(values_t))
+    ok = all(facts.values()) and split_ok
+    check.require(ok, "T4", "Term/read", "the importer constructs values[1] named values[0], configures it with the rest of the line and re-points it to the engine"
+                  if ok else f"term import: {facts}, split into name/class/parameters={split_ok}", loc(itf))
 
 
 def range_setter_order(check: Check) -> list[str]:
@@ -275,23 +302,113 @@ def term_tables(check: Check) -> None:
             problems.append(f"_parse expects {req} values but parameters() prints {len(pa)}")
         if hflag is not True:
             problems.append("_parse is called without the optional height")
-        if pfn is not None and "_parameters" not in unparse(pfn.node):
+        if pfn is not None and not any(isinstance(x, ast.Call) and isinstance(x.func, ast.Attribute) and x.func.attr == "_parameters" for x in ast.walk(pfn.node)):
             problems.append("parameters() does not go through _parameters (height elision)")
         check.require(not problems, "T6", f"{c.name}/parameters", f"{c.name}: parameters() = configure() = constructor order {pa} (+ optional height)"
                       if not problems else f"{c.name}: " + "; ".join(problems), where, {"printed": pa, "configured": conf_names, "constructor": ctor, "required": req})
-    # the shared helpers
+    parse_helper(check)
+    parameters_helper(check)
+
+
+def parse_helper(check: Check) -> None:
+    """Term._parse: interpreted for every (number of values given, required, height flag)."""
+    from ..guards import UNKNOWN, RoleEval
+
+    p = check.program
     fn = p.func("Term._parse")
     check.analysed(fn)
-    src = unparse(fn.node)
-    ok = "len(values) == required" in src and "values.append(1.0)" in src and "len(values) == required + height" in src and "raise ValueError" in src
-    check.require(ok, "T6", "Term._parse/arity", "_parse accepts exactly `required` values (height defaults to 1.0) or `required`+1, else ValueError", loc(fn))
+    r = Resolver(p, fn)
+    cfg = r.cfg
+    req_p, par_p = fn.params[1].name, fn.params[2].name
+    hp = [q.name for q in fn.params if q.kind == "kwonly"] or ["height"]
+
+    def classify(t: Term, e):
+        if t[0] == "call" and t[1] == ("global", "len") and len(t[2]) == 1:
+            return "n"
+        if t == ("param", req_p):
+            return "required"
+        if t == ("param", hp[0]):
+            return "height"
+        return None
+
+    bad = []
+    rows = 0
+    for n0 in range(0, 7):
+        for required in range(0, 5):
+            for height in (True, False):
+                rows += 1
+                appended = 0
+                node = [s for s, _ in cfg.entry.succ][0]
+                outcome = None
+                steps = 0
+                while outcome is None and steps < 200:
+                    steps += 1
+                    if node.kind == "exit":
+                        outcome = "return"
+                        break
+                    if node.kind == "raise_exit":
+                        outcome = "raise"
+                        break
+                    if node.kind == "test":
+                        ev = RoleEval(r, classify)
+                        v = ev.value(node.ast, node, {"n": n0 + appended, "required": required, "height": height})
+                        if v is UNKNOWN:
+                            raise AnalysisError(f"Term._parse: condition `{unparse(node.ast)}` not understood")
+                        nxt = [s for s, l in node.succ if l == ("true" if v else "false")]
+                    else:
+                        if node.kind == "stmt":
+                            for c in cfg.calls_in(node):
+                                if isinstance(c.func, ast.Attribute) and c.func.attr == "append":
+                                    appended += 1
+                        if node.kind == "stmt" and isinstance(node.ast, ast.Raise):
+                            outcome = "raise"
+                            break
+                        nxt = [s for s, l in node.succ if l != "exc"]
+                    if not nxt:
+                        outcome = "stuck"
+                        break
+                    node = nxt[0]
+                want_accept = n0 == required + int(height) or (height and n0 == required)
+                want_len = required + int(height)
+                got_accept = outcome == "return"
+                if got_accept != want_accept or (got_accept and n0 + appended != want_len):
+                    bad.append({"given": n0, "required": required, "height": height, "outcome": outcome, "length": n0 + appended})
+    raises = {unparse(x.exc.func) for x in ast.walk(fn.node) if isinstance(x, ast.Raise) and isinstance(x.exc, ast.Call)}
+    ok = not bad and raises == {"ValueError"}
+    check.require(ok, "T6", "Term._parse/arity", "_parse accepts exactly `required` values (height then defaults to 1.0) or `required`+1 when a height is allowed, else ValueError"
+                  if ok else f"_parse disagrees with the specification: {bad[:3]} raises={sorted(raises)}", loc(fn), {"rows": rows}, exhaustive=True, cases=rows)
+    # the default height appended is 1.0 and values are converted with to_float
+    apps = [r.term(c.args[0], n) for n, c in cfg.find_calls(".append") if c.args]
+    check.require(apps == [("const", 1.0)], "T6", "Term._parse/default-height", f"the height defaults to 1.0 (appended: {[show(a) for a in apps]})", loc(fn))
+
+
+def parameters_helper(check: Check) -> None:
+    p = check.program
     fn = p.func("Term._parameters")
     check.analysed(fn)
     r = Resolver(p, fn)
-    src = unparse(fn.node)
-    ok = "map(Op.str, args)" in src.replace("fuzzylite.", "") and "Op.is_close(self.height, 1.0)" in src and "result.append(Op.str(self.height))" in src
-    order_ok = src.find("result.extend") < src.find("result.append(Op.str(self.height))")
-    check.require(ok and order_ok, "T6", "Term._parameters/height-last", "_parameters prints the arguments in order and the height last, unless it is (close to) 1", loc(fn))
+    cfg = r.cfg
+    vararg = [q.name for q in fn.params if q.kind == "vararg"]
+    ext = [(n, r.term(c, n)) for n, c in cfg.find_calls(".extend")]
+    app = [(n, r.term(c, n)) for n, c in cfg.find_calls(".append")]
+    OPSTR = ("global", "fuzzylite.operation.Operation.str")
+    ext_ok = len(ext) == 1 and bool(vararg) and ext[0][1][2] == (("call", ("global", "map"), (OPSTR, ("param", vararg[0])), ()),)
+    h = ("attr", ("param", "self"), "height")
+    app_ok = len(app) == 1 and app[0][1][2] == (("call", OPSTR, (h,), ()),)
+    guard_ok = False
+    if app_ok:
+        for g, pol, gn in cfg.must_guards(app[0][0]):
+            t = r.term(g, gn)
+            close = ("call", ("global", "fuzzylite.operation.Operation.is_close"), (h, ("const", 1.0)), ())
+            if (t == ("unop", "not", close) and pol) or (t == close and not pol):
+                guard_ok = True
+    order_ok = ext_ok and app_ok and ext[0][0] not in cfg.reach([s for s, _ in app[0][0].succ])
+    rets = [r.term(n.ast.value, n) for n in cfg.stmt_nodes() if isinstance(n.ast, ast.Return) and n.ast.value is not None]
+    join_ok = bool(rets) and all(t[0] == "call" and t[1] == ("attr", ("const", " "), "join") for t in rets)
+    ok = ext_ok and app_ok and guard_ok and order_ok and join_ok
+    check.require(ok, "T6", "Term._parameters/height-last", "_parameters prints the arguments in order and the height last, unless it is (close to) 1" if ok else
+                  f"arguments printed in order={ext_ok}, height printed with Op.str={app_ok}, elided iff close to 1={guard_ok}, height last={order_ok}, space separated={join_ok}",
+                  loc(fn))
 
 
 def special_term(check: Check, c, pa, ca, req, hflag, ctor) -> None:
